@@ -6,10 +6,11 @@ pub struct Xs {
     pub ok: bool, pub oc: int, pub nc: int,
     pub last: int,            // 0 = nothing yet, 1 = Equal, 2 = a change (Delete / Insert / Replace)
     pub dels: int, pub inss: int, pub eqs: int, pub oe: int, pub ne: int,
+    pub strict: bool,         // carried indices must be exact too
 }
 
-pub open spec fn xcanon(o: int, n: int, oe: int, ne: int) -> Xs {
-    Xs { ok: true, oc: o, nc: n, last: 0, dels: 0, inss: 0, eqs: 0, oe: oe, ne: ne }
+pub open spec fn xcanon(o: int, n: int, oe: int, ne: int, strict: bool) -> Xs {
+    Xs { ok: true, oc: o, nc: n, last: 0, dels: 0, inss: 0, eqs: 0, oe: oe, ne: ne, strict: strict }
 }
 
 pub open spec fn xstep(rel: Rel, st: Xs, ev: Ev) -> Xs {
@@ -19,10 +20,10 @@ pub open spec fn xstep(rel: Rel, st: Xs, ev: Ev) -> Xs {
                 && (forall|i: int| 0 <= i < l ==> #[trigger] relk(rel, o as int, n as int, i)),
             oc: st.oc + l, nc: st.nc + l, last: 1, eqs: st.eqs + l, ..st },
         Ev::Delete(o, l, n) => Xs {
-            ok: st.ok && l > 0 && o == st.oc && n == st.nc && st.last != 2 && st.oc + l <= st.oe,
+            ok: st.ok && l > 0 && o == st.oc && (st.strict ==> n == st.nc) && st.last != 2 && st.oc + l <= st.oe,
             oc: st.oc + l, last: 2, dels: st.dels + l, ..st },
         Ev::Insert(o, n, l) => Xs {
-            ok: st.ok && l > 0 && o == st.oc && n == st.nc && st.last != 2 && st.nc + l <= st.ne,
+            ok: st.ok && l > 0 && (st.strict ==> o == st.oc) && n == st.nc && st.last != 2 && st.nc + l <= st.ne,
             nc: st.nc + l, last: 2, inss: st.inss + l, ..st },
         Ev::Replace(o, ol, n, nl) => Xs {
             ok: st.ok && ol > 0 && nl > 0 && o == st.oc && n == st.nc && st.last != 2 && st.oc + ol <= st.oe && st.nc + nl <= st.ne,
@@ -44,7 +45,7 @@ pub proof fn lemma_xrun_push(rel: Rel, st: Xs, s: Seq<Ev>, e: Ev)
 }
 
 pub proof fn lemma_xrun_mono(rel: Rel, st: Xs, s: Seq<Ev>)
-  ensures ({ let st2 = xrun(rel, st, s); st2.oe == st.oe && st2.ne == st.ne && st2.oc >= st.oc && st2.nc >= st.nc && (st2.ok ==> st.ok)
+  ensures ({ let st2 = xrun(rel, st, s); st2.oe == st.oe && st2.ne == st.ne && st2.strict == st.strict && st2.oc >= st.oc && st2.nc >= st.nc && (st2.ok ==> st.ok)
       && (st2.ok && st.oc <= st.oe && st.nc <= st.ne ==> st2.oc <= st2.oe && st2.nc <= st2.ne) })
   decreases s.len()
 {
@@ -57,12 +58,12 @@ pub proof fn lemma_step_exact(rel: Rel, st: St, e: Ev)
      match e {
         Ev::Equal(o, n, l) => l > 0 && o == st.oc && n == st.nc && st.oc + l <= st.oe && st.nc + l <= st.ne
             && (forall|i: int| 0 <= i < l ==> #[trigger] relk(rel, o as int, n as int, i)),
-        Ev::Delete(o, l, n) => l > 0 && o == st.oc && n == st.nc && st.oc + l <= st.oe,
-        Ev::Insert(o, n, l) => l > 0 && o == st.oc && n == st.nc && st.nc + l <= st.ne,
+        Ev::Delete(o, l, n) => l > 0 && o == st.oc && (st.strict ==> n == st.nc) && st.oc + l <= st.oe,
+        Ev::Insert(o, n, l) => l > 0 && (st.strict ==> o == st.oc) && n == st.nc && st.nc + l <= st.ne,
         Ev::Replace(o, ol, n, nl) => ol > 0 && nl > 0 && o == st.oc && n == st.nc && st.oc + ol <= st.oe && st.nc + nl <= st.ne,
         Ev::Finish => false,
      }
-  ensures ({ let s2 = step_rel(rel, st, e); wf(s2) && s2.oe == st.oe && s2.ne == st.ne
+  ensures ({ let s2 = step_rel(rel, st, e); wf(s2) && s2.oe == st.oe && s2.ne == st.ne && s2.strict == st.strict
       && s2.oc == st.oc + (match e { Ev::Equal(o, n, l) => l as int, Ev::Delete(o, l, n) => l as int, Ev::Replace(o, ol, n, nl) => ol as int, _ => 0 })
       && s2.nc == st.nc + (match e { Ev::Equal(o, n, l) => l as int, Ev::Insert(o, n, l) => l as int, Ev::Replace(o, ol, n, nl) => nl as int, _ => 0 }) })
 {
